@@ -136,6 +136,10 @@ func (d *scriptDriver) ReceiveProbe(timeout time.Duration) (*common.ProbeRespons
 				return nil, &common.BadPacketError{Err: fmt.Errorf("scripted noise")}
 			}
 			rtt := now.Sub(st)
+			if e.kind == 2 {
+				// a driver is free to report ANY RTT: rogue replies carry one that is unrelated to arrival order
+				rtt = time.Duration((int64(e.delay) % 50021) * 997)
+			}
 			d.accepted = append(d.accepted, accRec{e.ttl, e.ip, rtt, e.dest})
 			d.mu.Unlock()
 			return &common.ProbeResponse{TTL: uint8(e.ttl), IP: ipOf(e.ip), RTT: rtt, IsDest: e.dest}, nil
@@ -315,20 +319,26 @@ func genEngCase(r *rng, idx int) engCase {
 		}
 	}
 	// a driver handing out a reply nobody asked for: in range but unsent, below first, above last
-	if r.intn(6) == 0 && len(used) < 900 {
-		e := scriptEntry{kind: 2, ip: 9, delay: time.Duration(1+r.intn(horizon))*msNs + resid(), dest: r.intn(3) == 0}
-		switch r.intn(4) {
-		case 0:
-			e.ttl = c.first - 1 - r.intn(c.first)
-		case 1:
-			e.ttl = c.last + 1 + r.intn(3)
-			if e.ttl > 255 {
-				e.ttl = c.first - 1
+	if r.intn(5) == 0 && len(used) < 900 {
+		// one to three of them; several for one TTL with reported RTTs unrelated to their arrival order
+		same := c.first + r.intn(n)
+		for k := 1 + r.intn(3); k > 0; k-- {
+			e := scriptEntry{kind: 2, ip: 9 - r.intn(2), delay: time.Duration(1+r.intn(horizon))*msNs + resid(), dest: r.intn(3) == 0}
+			switch r.intn(6) {
+			case 0:
+				e.ttl = c.first - 1 - r.intn(c.first)
+			case 1:
+				e.ttl = c.last + 1 + r.intn(3)
+				if e.ttl > 255 {
+					e.ttl = c.first - 1
+				}
+			case 2:
+				e.ttl = c.first + r.intn(n)
+			default:
+				e.ttl = same
 			}
-		default:
-			e.ttl = c.first + r.intn(n)
+			c.script = append(c.script, e)
 		}
-		c.script = append(c.script, e)
 	}
 	if r.intn(5) == 0 {
 		// external cancellation at an arbitrary instant of the run (or after it)
